@@ -1,4 +1,5 @@
 import HioModel.Store.IoOps2
+import HioModel.Store.Last
 /-! # Store lemmas 6: the dictionary specifications and the refinement steps -/
 set_option linter.unusedSimpArgs false
 namespace Hio.Store
@@ -13,7 +14,7 @@ theorem upd_same (σ : St) (k : Bytes) (l : List Bytes) : upd σ k l k = l := by
 theorem upd_other (σ : St) {k k' : Bytes} (l : List Bytes) (h : k' ≠ k) : upd σ k l k' = σ k' := by simp [upd, h]
 
 /-- dictionary semantics of the operations the property names; `set = true` for the ordered-set flavour.
-`none`: the operation is not part of the dictionary language (getLast, getItemIter, plain-only ops). -/
+`none`: the operation is not part of the dictionary language (getItemIter, plain-only ops). -/
 def specIo (set : Bool) (σ : St) : Op → Option (St × Res)
   | .add k v =>
     if set then some (upd σ k (if (σ k).contains v then σ k else σ k ++ [v]), .bool (!(σ k).contains v))
@@ -27,6 +28,7 @@ def specIo (set : Bool) (σ : St) : Op → Option (St × Res)
   | .get k => some (σ, .vals (σ k))
   | .iter k => some (σ, .vals (σ k))
   | .first k => some (σ, .opt (σ k).head?)
+  | .last k => some (σ, .opt (σ k).getLast?)
   | .pop k => some (upd σ k (σ k).tail, .opt (σ k).head?)
   | .rem k => some (upd σ k [], .bool (!(σ k).isEmpty))
   | .remv k v =>
@@ -105,7 +107,6 @@ theorem io_step_refines {K : Bytes → Prop} (hK : SepFree K) (hvk : ∀ k, K k 
   cases op with
   | put k v => simp [specIo] at hspec
   | pin k v => simp [specIo] at hspec
-  | last k => simp [specIo] at hspec
   | cntAll => simp [specIo] at hspec
   | items => simp [specIo] at hspec
   | add k v =>
@@ -168,6 +169,12 @@ theorem io_step_refines {K : Bytes → Prop} (hK : SepFree K) (hvk : ∀ k, K k 
     obtain ⟨rfl, rfl⟩ := hspec
     refine ⟨db, ?_, hr⟩
     cases set <;> simp [step, kindOf, liftRo, getIoValFirst_spec hinv hnc, hr.abs]
+  | last k =>
+    have hnc := hr.noChild hK (hkey k rfl)
+    simp only [specIo, Option.some.injEq, Prod.mk.injEq] at hspec
+    obtain ⟨rfl, rfl⟩ := hspec
+    refine ⟨db, ?_, hr⟩
+    cases set <;> simp [step, kindOf, liftRo, getIoValLast_spec hinv hnc, hr.abs]
   | cnt k =>
     have hnc := hr.noChild hK (hkey k rfl)
     simp only [specIo, Option.some.injEq, Prod.mk.injEq] at hspec
